@@ -47,6 +47,30 @@ def rule_as_order(ctx, cfg, F):
         R.violate("%s:stream-pairing" % f.path, "the stream returned is not the receiving half of the channel whose sender was enqueued with this receiver (receiver ok: %s, pair ok: %s)" % (ok_rx, ok_pair), f.path, f.loc(eb), config=cfg)
 
 
+def rule_as_poll(ctx, cfg, F):
+    R = ctx.rule("AS-POLL", "IpcStream::poll_next asks the forwarding channel on every path, with the caller's own task context: the channel's waker registration is one-shot, so a poll that "
+                 "returns Pending without passing the context on is never woken for the next message or for the end of the stream")
+    n = 0
+    for f in sorted(F.fns.values(), key=lambda x: x.path):
+        if not (f.impl_trait or "").endswith("Stream") or not strip_generics(f.path).endswith("::poll_next") or "asynch::IpcStream" not in f.path:
+            continue
+        n += 1
+        tr = Tracer(f)
+        ctx_param = next((i for i in range(1, f.argc + 1) if "Context" in f.local_ty(i)), None)
+        inner = [b for b, t in f.calls() if strip_generics(t.get("callee") or "").endswith("Stream::poll_next") and "UnboundedReceiver" in (t.get("resolved") or "") + " ".join(t.get("generics") or [])]
+        good = [b for b in inner if ctx_param is not None and any(r.kind == "param" and r.id == ctx_param for r in tr.roots_of_operand(f.term(b)["args"][1]))]
+        if not inner:
+            R.violate("%s:no-inner-poll" % strip_generics(f.path), "poll_next does not poll the forwarding channel", f.path, f.loc(0), config=cfg)
+        elif len(good) != len(inner):
+            R.violate("%s:foreign-context" % strip_generics(f.path), "the forwarding channel is polled with a context other than the caller's", f.path, f.loc(inner[0]), config=cfg)
+        elif not f.all_paths_pass(0, good)[0]:
+            R.violate("%s:path-without-registration" % strip_generics(f.path), "a path through poll_next returns without polling the forwarding channel with the caller's context: nothing will wake the task",
+                      f.path, f.loc(0), config=cfg)
+        else:
+            R.ok("every path polls the forwarding channel with the caller's context", f.loc(good[0]), cfg)
+    R.count("poll_fns[%s]" % cfg, n)
+
+
 def rule_as_loop(ctx, cfg, F):
     Rd = ctx.rule("AS-DRAIN", "in the routing thread every path from one select to the next passes through the route-queue drain until it yields nothing (or the queue-terminated edge); each drained pair is installed as "
                   "insert(add_opaque(receiver), sender) from the same tuple")
@@ -78,10 +102,11 @@ def rule_as_loop(ctx, cfg, F):
         for lab in labs:
             if lab["kind"] in ("variant", "variant_not") and lab.get("adt") == EVENT_ADT and lab.get("variant") and "|" not in lab["variant"]:
                 yield ("event", lab["variant"])
-            if lab["kind"] in ("variant", "variant_not") and lab.get("adt") == "std::option::Option" and lab.get("variant") and "|" not in lab["variant"]:
+            if lab["kind"] in ("variant", "variant_not") and lab.get("adt") in ("std::option::Option", "std::ops::ControlFlow") and lab.get("variant") and "|" not in lab["variant"]:
                 pl = lab["place"]
                 if any(r.kind == "call" and r.id == "std::collections::HashMap::get" for r in tr.roots(pl["l"])):
-                    yield ("lookup", lab["variant"])
+                    # `senders.get(&id)?` tests the lookup through Try::branch: Continue is Some, Break is None
+                    yield ("lookup", {"Continue": "Some", "Break": "None"}.get(lab["variant"], lab["variant"]))
 
     def block_fact(b):
         t = f.term(b)
@@ -137,6 +162,8 @@ def rule_as_loop(ctx, cfg, F):
                     if lab.get("adt") == "std::result::Result" and lab["variant"] == "Err":
                         yield ("drained",)
                     if lab.get("adt") == "std::option::Option" and lab["variant"] == "None":
+                        yield ("drained",)
+                    if lab.get("adt") == "std::ops::ControlFlow" and lab["variant"] == "Break":
                         yield ("drained",)
 
     def block_fact2(b):
